@@ -506,7 +506,7 @@ Section Assemble.
   Record EpochInv (f : fork) (st : BeaconState) (cx : EpochCtx) : Prop := mkEpochInv {
     ei_lengths : lengths_inv f st;
     (* context = state (C08), per-validator list lengths, current epoch >= 1, sums of effective balances < 2^64;
-       phase0: every pending attestation is as process_attestation admitted it, context committees = the Spec's (C07) *)
+       phase0: every pending attestation is as process_attestation accepted it, context committees = the Spec's (C07) *)
     ei_family : match f with
                 | Phase0 => P0Hyps E st (cx_committee_of cx) (cx_epc cx)
                 | _ => AltairHyps E st (cx_epc cx)
